@@ -5,7 +5,7 @@ COMMON_ASSUME = [
 ]
 PROPS = {
     "C03": {
-        "suites": ["c03", "scope-c04"],
+        "suites": ["c03", "scope-c04", "c20cache"],
         "assumptions": COMMON_ASSUME + [
             "sort.Sort returns a permutation sorted by Less (modelled by merge sort; theorems hold for the sorted permutation)",
             "float64 comparison is IEEE-754 (modelled on bit patterns through a sign-magnitude key)",
@@ -106,7 +106,7 @@ PROPS = {
         "timeout": {"quick": 400, "thorough": 3600},
     },
     "C08": {
-        "suites": ["c08conc", "c08sched", "c08lock"],
+        "suites": ["c08conc", "c08sched", "c08lock", "c08slow"],
         "assumptions": COMMON_ASSUME + [
             "'the reporting goroutine has ended' is observed by a goroutine dump after Close returned",
             "a second Close call that overlaps the first returns nil before the first has finished (limitation D5b, theorem concurrent_close_returns_early); the barrier is claimed for the winning caller",
